@@ -91,6 +91,94 @@ where
   M::Action: Send + Sync + Clone + std::fmt::Debug + PartialEq + 'static,
   F: Fn(Arc<Collector>) -> M,
 {
+  run_with(ctx, part, max_depth, 1, make)
+}
+/// BFS to closure with the frontier expanded by all cores (level-synchronous, rayon), for models with FEW states and
+/// EXPENSIVE transitions: stateright hands states to its workers in blocks of up to 1 500, so a search with a few
+/// hundred states runs on one core there. Same `Model` (init_states / actions / next_state), same notion of state
+/// identity (`Hash` of the state). The second run is stateright's own single-threaded BFS: the two engines must agree
+/// on the number of unique states and on the violation keys.
+pub fn run_par<M, F>(ctx: &crate::Ctx, part: &str, make: F) -> SrStats
+where
+  M: Model + Send + Sync + 'static,
+  M::State: Hash + Send + Sync + Clone + std::fmt::Debug + PartialEq + 'static,
+  M::Action: Send + Sync + Clone + std::fmt::Debug + PartialEq + 'static,
+  F: Fn(Arc<Collector>) -> M,
+{
+  use rayon::prelude::*;
+  use std::hash::Hasher;
+  let fp = |s: &M::State| -> u64 {
+    let mut h = std::collections::hash_map::DefaultHasher::new();
+    s.hash(&mut h);
+    h.finish()
+  };
+  let t0 = std::time::Instant::now();
+  let col = Collector::new();
+  let model = make(col.clone());
+  let mut seen: std::collections::HashSet<u64> = std::collections::HashSet::new();
+  let mut frontier: Vec<M::State> = Vec::new();
+  for s in model.init_states() {
+    if seen.insert(fp(&s)) {
+      frontier.push(s);
+    }
+  }
+  let mut generated = frontier.len() as u64;
+  let mut depth = 0u64;
+  while !frontier.is_empty() {
+    let pairs: Vec<(usize, M::Action)> = frontier
+      .iter()
+      .enumerate()
+      .flat_map(|(i, s)| {
+        let mut acts = Vec::new();
+        model.actions(s, &mut acts);
+        acts.into_iter().map(move |a| (i, a))
+      })
+      .collect();
+    let nexts: Vec<M::State> = pairs.into_par_iter().filter_map(|(i, a)| model.next_state(&frontier[i], a)).collect();
+    generated += nexts.len() as u64;
+    let mut new = Vec::new();
+    for n in nexts {
+      if seen.insert(fp(&n)) {
+        new.push(n);
+      }
+    }
+    frontier = new;
+    depth += 1;
+  }
+  let a = SrStats { unique: seen.len() as u64, generated, max_depth: depth, closure: true };
+  let first_s = t0.elapsed().as_secs_f64();
+  // cross-check: stateright's BFS, one thread
+  let t1 = std::time::Instant::now();
+  let col_b = Collector::new();
+  let c = make(col_b.clone()).checker().threads(1).spawn_bfs().join();
+  let b_unique = c.unique_state_count() as u64;
+  let second_s = t1.elapsed().as_secs_f64();
+  ctx.require(a.unique == b_unique && c.is_done(), &format!("{part}: own parallel BFS found {} unique states, stateright's BFS {}", a.unique, b_unique));
+  let ka: Vec<String> = col.viol.lock().unwrap().keys().cloned().collect();
+  let kb: Vec<String> = col_b.viol.lock().unwrap().keys().cloned().collect();
+  ctx.require(ka == kb, &format!("{part}: violation keys differ between the two engines: {ka:?} vs {kb:?}"));
+  col.drain_into(ctx, part);
+  ctx.add_states(a.unique);
+  ctx.add_transitions(a.generated);
+  ctx.add_traces(a.generated);
+  ctx.add_evals(col.oracle_evals.load(Ordering::Relaxed).max(a.generated));
+  ctx.part(
+    part,
+    json!({"engine":"E2 level-synchronous parallel BFS (own, rayon) cross-checked by stateright BFS (1 thread)", "unique_states": a.unique,
+      "generated_states(transitions+init)": a.generated, "levels": a.max_depth, "closure": true, "depth_target": null,
+      "second_run_1_thread_unique_states": b_unique, "stateright_generated": c.state_count(), "wall_s": [(first_s * 10.0).round() / 10.0, (second_s * 10.0).round() / 10.0]}),
+  );
+  a
+}
+/// As `run`, the second (determinism) run with `second_threads` workers instead of one — for searches whose
+/// transitions are expensive (every transition replays a history on a fresh real object).
+pub fn run_with<M, F>(ctx: &crate::Ctx, part: &str, max_depth: Option<usize>, second_threads: usize, make: F) -> SrStats
+where
+  M: Model + Send + Sync + 'static,
+  M::State: Hash + Send + Sync + Clone + std::fmt::Debug + PartialEq + 'static,
+  M::Action: Send + Sync + Clone + std::fmt::Debug + PartialEq + 'static,
+  F: Fn(Arc<Collector>) -> M,
+{
   let one = |threads: usize| -> (SrStats, Arc<Collector>) {
     let col = Collector::new();
     let mut b = make(col.clone()).checker().threads(threads);
@@ -107,13 +195,17 @@ where
     (st, col)
   };
   let threads = std::thread::available_parallelism().map(|n| n.get()).unwrap_or(8);
+  let t0 = std::time::Instant::now();
   let (a, col) = one(threads);
-  let (b, col_b) = one(1);
+  let first_s = t0.elapsed().as_secs_f64();
+  let t1 = std::time::Instant::now();
+  let (b, col_b) = one(second_threads.max(1));
+  let second_s = t1.elapsed().as_secs_f64();
   // With a depth target the set of visited states can depend on worker timing unless depth is part
   // of the fingerprint (the bins do that); closure runs must agree exactly.
   ctx.require(
     a.unique == b.unique,
-    &format!("{part}: unique-state count differs between {threads}-thread and 1-thread runs: {} vs {}", a.unique, b.unique),
+    &format!("{part}: unique-state count differs between {threads}-thread and {second_threads}-thread runs: {} vs {}", a.unique, b.unique),
   );
   let ka: Vec<String> = col.viol.lock().unwrap().keys().cloned().collect();
   let kb: Vec<String> = col_b.viol.lock().unwrap().keys().cloned().collect();
@@ -130,7 +222,8 @@ where
     part,
     json!({"engine":"E2 stateright BFS","unique_states": a.unique, "generated_states(transitions+init)": a.generated,
       "max_depth": a.max_depth, "closure": a.closure, "depth_target": max_depth,
-      "second_run_1_thread_unique_states": b.unique}),
+      "second_run_1_thread_unique_states": b.unique, "second_run_threads": second_threads.max(1),
+      "wall_s": [(first_s * 10.0).round() / 10.0, (second_s * 10.0).round() / 10.0]}),
   );
   a
 }
